@@ -209,6 +209,12 @@ func (v *VerifCurator) Heartbeat(id core.TractserverID, addr string, bad, has []
 	return v.C.tractserverHeartbeat(id, addr, bad, has, core.TractserverLoad{AvailSpace: 1 << 40, TotalSpace: 1 << 41})
 }
 
+// HeartbeatLoad is Heartbeat with an explicit free-space report (a full server is known and healthy
+// but not a placement candidate).
+func (v *VerifCurator) HeartbeatLoad(id core.TractserverID, addr string, avail uint64) {
+	v.C.tractserverHeartbeat(id, addr, nil, nil, core.TractserverLoad{AvailSpace: avail, TotalSpace: 1 << 41})
+}
+
 // KnowsTS reports whether this incarnation's monitor has an address for the tractserver.
 func (v *VerifCurator) KnowsTS(id core.TractserverID) bool {
 	_, ok := v.C.tsMon.getAddrByID(id)
